@@ -5,6 +5,15 @@ import json
 ALL = [f"C{i:02d}" for i in range(1, 20)]
 
 CHECKS = {
+    "C19": dict(
+        category="model_checking", engine="E3+E1", design_ref="DESIGN.md 2.3, 3/C19",
+        technique="stateless preemption-bounded exploration of real threads on the real code under a controlled scheduler (sys.monitoring LINE events + per-thread semaphores)",
+        text=("Ten 2-thread harnesses forced to collide on the shared XmlContext / XmlParser / XmlSerializer (cold context, lookup without target class, xsi:type "
+              "lookups, wildcard namespace memo, parse vs serialize, module import changing len(sys.modules)) are run under every schedule with <= 2 preemptions "
+              "(thorough: <= 3, plus 3-thread harnesses with <= 2). Scheduling points are the executed lines that read or write shared mutable state: the attribute "
+              "set is found by a dynamic write profile (canonical hash of the shared roots after every line, run per operation) and the lines by an AST scan of the "
+              "current tree, so state added by an edit is picked up. Oracle: every call's result equals its result when run alone, and the shared objects still work afterwards."),
+        note="line granularity (no preemption between bytecodes of one line); steps on thread-local state commute; >3 threads / >3 preemptions outside the bound"),
     "C04": dict(
         category="exploration", engine="E1+E4", design_ref="DESIGN.md 2.1, 2.4, 2.5, 3/C04",
         technique="bounded-exhaustive enumeration of generated models x instances x factories x dict/JSON routes, with set-iteration order of the decoder owned as a choice point",
@@ -78,6 +87,9 @@ def main():
         },
         "engines": [
             {"name": "E1", "path": "vmc/engine.py", "serves_properties": sorted(CHECKS), "kind_free_text": "stateless deviation-bounded explorer over harness choice points (hand-written, Python)"},
+            {"name": "E3", "path": "vmc/sched.py", "serves_properties": ["C19"], "kind_free_text": "controlled thread scheduler: sys.monitoring LINE events at shared-state lines, per-thread semaphore baton, dynamic write profile + AST scan"},
+            {"name": "E4", "path": "vmc/setorder.py", "serves_properties": ["C04", "C12"], "kind_free_text": "import-time AST transform owning set iteration order and id() as explorer choice points"},
+            {"name": "E5", "path": "vmc/gmodel.py", "serves_properties": ["C01", "C03", "C04", "C08", "C18"], "kind_free_text": "grammar-walk generator of binding models as real dataclasses in synthetic modules"},
         ],
         "checks": checks,
         "not_applicable": [{"property_id": p, "reason": NOT_YET} for p in ALL if p not in CHECKS],
